@@ -1,6 +1,7 @@
 package chainh
 
 import (
+	"sort"
 	"crypto/sha256"
 	"encoding/binary"
 	"encoding/json"
@@ -99,6 +100,7 @@ func Concretise(b *Behaviour, genesis [32]byte, seed int64) *Concrete {
 	}
 	c.Unit = WorkOfBits(unitBits)
 	CurUnit = c.Unit
+	taken := map[[32]byte]bool{genesis: true}
 	var build func(id int, depth int) [32]byte
 	build = func(id int, depth int) [32]byte {
 		if h, ok := c.Hash[id]; ok {
@@ -133,12 +135,25 @@ func Concretise(b *Behaviour, genesis [32]byte, seed int64) *Concrete {
 		} else {
 			h.Bits = workBits[s.Work]
 		}
-		c.Hdr[id] = h
+		// two abstract ids are two headers: siblings that share the merkle-root class and the work class and happen to draw
+		// the same version, time and nonce from the small pools of edge values would be ONE header (and the second would be
+		// answered "duplicate") - the nonce is drawn again until the hash is new
 		hh := h.Hash()
+		for taken[hh] {
+			h.Nonce = r.Uint32()
+			hh = h.Hash()
+		}
+		taken[hh] = true
+		c.Hdr[id] = h
 		c.Hash[id] = hh
 		return hh
 	}
+	ids := make([]int, 0, len(c.Decl))
 	for id := range c.Decl {
+		ids = append(ids, id)
+	}
+	sort.Ints(ids) // (the re-drawn nonces then do not depend on map order)
+	for _, id := range ids {
 		build(id, 0)
 	}
 	for id, h := range c.Hash {
